@@ -362,6 +362,72 @@ pub fn body_of<R: ToR>(r: &R) -> Vec<RVal> {
     }
 }
 
+fn canon(v: &RVal, out: &mut String) {
+    match v {
+        RVal::S(s) => out.push_str(&format!("{s:?}")),
+        RVal::O(s) => out.push_str(&format!("o{s:?}")),
+        RVal::G(s) => out.push_str(&format!("g{s:?}")),
+        RVal::D(b) => out.push_str(&format!("d{b:x}")),
+        RVal::V(b) => {
+            out.push_str(&format!("<{}:", b.0.to_string()));
+            canon(&b.1, out);
+            out.push('>');
+        }
+        RVal::A(_, items) => {
+            out.push('[');
+            for i in items {
+                canon(i, out);
+                out.push(',');
+            }
+            out.push(']');
+        }
+        RVal::St(items) => {
+            out.push('(');
+            for i in items {
+                canon(i, out);
+                out.push(',');
+            }
+            out.push(')');
+        }
+        RVal::Dict(_, _, entries) => {
+            // entry order is not part of the value (hash maps iterate in any order)
+            let mut es: Vec<String> = entries
+                .iter()
+                .map(|(k, v)| {
+                    let mut s = String::new();
+                    canon(k, &mut s);
+                    s.push('=');
+                    canon(v, &mut s);
+                    s
+                })
+                .collect();
+            es.sort();
+            out.push('{');
+            out.push_str(&es.join(","));
+            out.push('}');
+        }
+        RVal::M(_, m) => match m {
+            None => out.push_str("nothing"),
+            Some(x) => {
+                out.push_str("just ");
+                canon(x, out)
+            }
+        },
+        other => out.push_str(&other.show()),
+    }
+}
+
+/// the label of a call: a canonical rendering of the argument values (as reference values, so that
+/// it does not depend on the iteration order of hash maps)
+pub fn lbl(args: &[RVal]) -> String {
+    let mut s = String::new();
+    for a in args {
+        canon(a, &mut s);
+        s.push(';');
+    }
+    s
+}
+
 /// a deterministic value of R derived from a label (method name + Debug of the arguments)
 pub fn derived<R: Gen>(label: &str) -> R {
     let h = vcore::src::fnv(label.as_bytes());
